@@ -275,6 +275,38 @@ def sc_em_observable(B, um, uv, uw, dask, seed):
     return o
 
 
+def sc_long_loop(B, which, stop_at, dask):
+    """real code only, stubbed steps: with no iteration limit training runs until the stated rule
+    fires, however late (criterion sequence c/k: relative change 1/k)"""
+    mod = B.mod("gmm" if which == "gmm" else "kmeans")
+    seq = [1000.0 / k for k in range(1, stop_at + 40)]
+    thr = 1.0 / (stop_at - 0.5)
+    if which == "gmm":
+        m = mod.GMMMachine(2, max_fitting_steps=None, convergence_threshold=thr)
+        m.means = B.np.zeros((2, 1))
+        m.variances = B.np.ones((2, 1))
+    else:
+        m = mod.KMeansMachine(2, init_method=B.np.zeros((2, 1)), max_iter=None, convergence_threshold=thr)
+    X = B.np.zeros((4, 1))
+    if dask:
+        X = B.darr(X, ((2, 2), (1,)))
+        B.executor("fifo", False)
+    with LoopStub(B, which, seq, which, shape=(2, 1)) as st:
+        m.fit(X)
+        calls = st.calls
+    o = Outcome()
+    o.equal("iterations", calls, stop_at)
+    o.equal("returned-model-tag", (m.means if which == "gmm" else m.centroids_)[0][0], float(stop_at))
+    return o
+
+
+def job_long(P):
+    from symexec import loader
+
+    stops = sorted({c + 7 for c in loader.int_constants(min_value=20, max_value=2000)} | {37})
+    P.probe_real("long-loops", sc_long_loop, [dict(which=w, stop_at=sa, dask=dk) for w in ("gmm", "kmeans") for sa in stops for dk in (False, True)], tries=1)
+
+
 def job_observable(P):
     plist = [dict(um=um, uv=uv, uw=uw, dask=dk, seed=sd) for um, uv, uw in itertools.product((False, True), repeat=3) for dk in (False, True) for sd in (1, 2)]
     P.probe_real("em-observable", sc_em_observable, plist, tries=1)
@@ -300,7 +332,7 @@ def job_loop(P, K, cap_kind, thr_kind, dask, isolated, policy):
 
 
 def jobs(tier):
-    out = [("observable", "job_observable", {})]
+    out = [("observable", "job_observable", {}), ("long-loops", "job_long", {})]
     for (C, D) in SIZES[tier]:
         out.append(("mstep@C%dD%d" % (C, D), "job_mstep", dict(C=C, D=D)))
     out.append(("average@C2D2N3", "job_average", dict(C=2, D=2, N=3)))
